@@ -101,3 +101,15 @@ Definition vjust_stmt (ss : list stmt) (p : Z) (s : stmt) : bool :=
 
 Definition vjust_cfg (p : Z) (c : cfg) : bool :=
   let ss := all_stmts (c_blocks c) in forallb (vjust_stmt ss p) ss.
+
+(* a variable that has a local defining assignment has no other assignment
+   (true of SSA graphs: C14) - the side condition of the universal C20 theorem *)
+Definition tgt (s : stmt) : option vname := match s with SSubst _ v _ _ _ _ => Some v | _ => None end.
+Definition is_ldef (s : stmt) : bool := match s with SSubst _ _ _ _ _ st => stype_is_local st | _ => false end.
+Definition ldefs_unique (ss : list stmt) : bool :=
+  forallb (fun s => negb (is_ldef s) ||
+                    match tgt s with
+                    | Some v => Nat.eqb (length (filter (defines v) ss)) 1
+                    | None => true
+                    end) ss.
+Definition ldefs_unique_cfg (c : cfg) : bool := ldefs_unique (all_stmts (c_blocks c)).
